@@ -122,11 +122,18 @@ def step (s : St) (toks : List String) : St × String :=
     match c.changeSigScheme a sch with
     | .error e => (s, errStr e)
     | .ok c' => (⟨c', s.nkeys⟩, "ok")
+  | ["seclevel", kind, pws] =>
+    let l := if pws == "-" then [] else (pws.splitOn ",").map Proto.bytesOf
+    match c.reencrypt crypto l (if kind == "low" then some lowParams else none) with
+    | .ok c' => (⟨c'.save, s.nkeys⟩, "ok")
+    | .countMismatch => (s, "err:count")
+    | .failed i => (s, s!"err:failed:{i}")
   | ["reload"] =>
     let c' := c.reopen
     (⟨c', s.nkeys⟩, s!"ok n={c'.num} file={c'.accounts.length}")
   | ["num"] => (s, toString c.num)
   | ["audit"] => (s, "ok")
+  | ["auditlive"] => (s, "ok")
   | _ => (s, "bad-op")
 
 end WalletDrv
